@@ -16,7 +16,7 @@ func init() {
 		Doc: "for each fork's ProcessBlock and ProcessEpoch, every path to a success return passes through exactly the spec's sub-transitions for that fork, in that fork's variant (resolved callee), with no foreign stage; stages that do not commute in this code base run in the spec's order (dependency table in DESIGN.md §9). A stage called from an unexported helper counts at the helper's call site, on every path only if the helper runs it on every one of its own success paths",
 		Run: rulePipeStages})
 	register(&Rule{Name: "slots.order", Floor: 8,
-		Doc: "ProcessSlots: ProcessSlot, then ProcessEpoch iff at an epoch end, then SetSlot, then RotateEpochs iff at an epoch end, then UpgradeMaybe, each cutting every path to the next iteration; the target-slot guard precedes the loop; PostSlotTransition: signature check before ProcessBlock (under validateResult) and state-root comparison after it with != leading to an error",
+		Doc: "ProcessSlots: ProcessSlot, then ProcessEpoch iff at an epoch end, then SetSlot, then RotateEpochs iff at an epoch end, then UpgradeMaybe, each on every path of a round (in every frame when the round, or part of it, lives in a helper) and the counter of the loop test moving up by exactly one per round; the target-slot guard precedes the loop; PostSlotTransition: signature check before ProcessBlock (under validateResult) and state-root comparison after it with != leading to an error",
 		Run: ruleSlotsOrder})
 	register(&Rule{Name: "engine.verdict", Floor: 12,
 		Doc: "VerifyAndNotifyNewPayload maps every engine answer (err => (false, err), !ok => (false, nil)) in the order block hash, versioned hashes, notify; ProcessExecutionPayload stores the payload header only after the engine verdict `valid` and returns an error for err and for !valid; the request carries the block's payload, the versioned hashes of its commitments in order and the parent root of the latest block header",
@@ -440,199 +440,367 @@ func ruleSlotsOrder(c *Ctx) {
 	} else {
 		c.bad("ProcessSlots.target-guard", fd.Pos(), "no `current >= target => error` guard before the slot loop (a non-increasing target must be refused)")
 	}
-	g := cfg.New(loop.Body, func(*ast.CallExpr) bool { return true })
-	names := []string{"ProcessSlot", "ProcessEpoch", "SetSlot", "RotateEpochs", "UpgradeMaybe"}
-	calls := cfgCalls(info, g, func(q string, f *types.Func) bool {
-		for _, n := range names {
-			if f.Name() == n {
-				return true
+	// The calls of one slot round, read with every same-package helper and local closure written out in place: each
+	// with the chain of frames it sits in. "On every path": in each frame of the chain the call (or the call that leads
+	// to it) lies on every path from the frame's entry to its normal completion.
+	top := newInlEnv(info, fd.Body, nil, nil, nil, nil)
+	bySite := map[string][]inlSite{}
+	{
+		seq := 0
+		walkInlined(c.P, pk, top, 0, map[*ast.BlockStmt]bool{}, &seq, func(st inlSite) {
+			n := st.nodeIn(top)
+			if n == nil || n.Pos() < loop.Body.Pos() || n.End() > loop.Body.End() {
+				return
 			}
-		}
-		return false
-	})
-	byName := map[string][]callLoc{}
-	for q, l := range calls {
-		byName[q[strings.Index(q, ".")+1:]] = append(byName[q[strings.Index(q, ".")+1:]], l...)
-	}
-	// loop-body exit blocks (fallthrough to next iteration): blocks with no successors and not ending in return
-	var ends []*cfg.Block
-	for _, b := range g.Blocks {
-		if !b.Live || len(b.Succs) != 0 {
-			continue
-		}
-		if len(b.Nodes) > 0 {
-			if _, isRet := b.Nodes[len(b.Nodes)-1].(*ast.ReturnStmt); isRet {
-				continue
+			switch st.f.Name() {
+			case "ProcessSlot", "ProcessEpoch", "SetSlot", "RotateEpochs", "UpgradeMaybe":
+				bySite[st.f.Name()] = append(bySite[st.f.Name()], st)
 			}
-		}
-		ends = append(ends, b)
+		})
 	}
-	condName := func(call *ast.CallExpr) string {
-		parents := parentMap(loop.Body)
-		for p := parents[ast.Node(call)]; p != nil; p = parents[p] {
-			if ifs, ok := p.(*ast.IfStmt); ok {
-				if id, ok := ast.Unparen(ifs.Cond).(*ast.Ident); ok {
-					return id.Name
+	onEveryPath := func(st inlSite) bool {
+		var node ast.Node = st.call
+		for fr := st.env; fr != nil; fr = fr.up {
+			scope := fr.body
+			if fr.up == nil {
+				scope = loop.Body
+			}
+			fg := cfg.New(scope, func(*ast.CallExpr) bool { return true })
+			var loc []callLoc
+			for _, bl := range fg.Blocks {
+				for _, nd := range bl.Nodes {
+					hit := false
+					ast.Inspect(nd, func(k ast.Node) bool {
+						if k == node {
+							hit = true
+						}
+						return !hit
+					})
+					if hit {
+						loc = append(loc, callLoc{blk: bl})
+					}
 				}
 			}
+			var ends []*cfg.Block
+			if fr.up == nil {
+				// the round completes by falling off the end of the loop body (or by `continue`)
+				for _, bl := range fg.Blocks {
+					if !bl.Live || len(bl.Succs) != 0 {
+						continue
+					}
+					if len(bl.Nodes) > 0 {
+						if _, isRet := bl.Nodes[len(bl.Nodes)-1].(*ast.ReturnStmt); isRet {
+							continue
+						}
+					}
+					ends = append(ends, bl)
+				}
+			} else {
+				ends = successReturns(fr.info, fg)
+				for _, bl := range fg.Blocks {
+					if bl.Live && len(bl.Succs) == 0 && len(bl.Nodes) > 0 {
+						if _, isRet := bl.Nodes[len(bl.Nodes)-1].(*ast.ReturnStmt); !isRet {
+							ends = append(ends, bl)
+						}
+					}
+				}
+			}
+			if len(loc) == 0 || !cuts(fg, loc, ends) {
+				return false
+			}
+			node = fr.site
 		}
-		return ""
+		return true
 	}
-	uncond := []string{"ProcessSlot", "SetSlot", "UpgradeMaybe"}
-	for _, n := range uncond {
+	for _, n := range []string{"ProcessSlot", "SetSlot", "UpgradeMaybe"} {
 		key := "ProcessSlots." + n
-		l := byName[n]
+		l := bySite[n]
 		if len(l) != 1 {
 			c.bad(key, loop.Pos(), "%s is called %d times per slot", n, len(l))
 			continue
 		}
-		if !cuts(g, l, ends) {
+		if !onEveryPath(l[0]) {
 			c.bad(key, l[0].call.Pos(), "a path completes a slot iteration without %s", n)
 		} else {
 			c.ok(key, l[0].call.Pos(), "once per slot on every path")
 		}
 	}
+	// the epoch-end flag: SlotToEpoch(s+1) != SlotToEpoch(s), tested directly or through a local (or a helper
+	// parameter) defined as that, in any spelling
+	isEpochEnd := func(cd inlCond) bool {
+		x, fr := cd.env.resolve(cd.e)
+		neg := cd.neg
+		for {
+			u, ok := x.(*ast.UnaryExpr)
+			if !ok || u.Op != token.NOT {
+				break
+			}
+			neg = !neg
+			x, fr = fr.resolve(u.X)
+		}
+		be, ok := x.(*ast.BinaryExpr)
+		if !ok {
+			return false
+		}
+		op := be.Op
+		if neg {
+			op = negOp[op]
+		}
+		if op != token.NEQ {
+			return false
+		}
+		arg := func(e ast.Expr) (Poly, bool) {
+			call, ok := ast.Unparen(e).(*ast.CallExpr)
+			if !ok || len(call.Args) != 1 {
+				return nil, false
+			}
+			if f := calleeFunc(fr.info, call); f == nil || f.Name() != "SlotToEpoch" {
+				return nil, false
+			}
+			return fr.poly(call.Args[0])
+		}
+		pa, ok1 := arg(be.X)
+		pb, ok2 := arg(be.Y)
+		if !ok1 || !ok2 {
+			return false
+		}
+		d, isK := polyAdd(pa, pb, -1).isConst()
+		return isK && (d == 1 || d == -1)
+	}
 	for _, n := range []string{"ProcessEpoch", "RotateEpochs"} {
 		key := "ProcessSlots." + n
-		l := byName[n]
+		l := bySite[n]
 		if len(l) != 1 {
 			c.bad(key, loop.Pos(), "%s is called %d times per slot", n, len(l))
 			continue
 		}
-		cn := condName(l[0].call)
-		// the governing condition must be the epoch-end flag: SlotToEpoch(s+1) != SlotToEpoch(s), tested directly or
-		// through a variable defined as that
-		okCond := false
-		isEpochEnd := func(e ast.Expr) bool {
-			e = ast.Unparen(e)
-			neg := false
-			for {
-				u, ok := e.(*ast.UnaryExpr)
-				if !ok || u.Op != token.NOT {
-					break
-				}
-				neg = !neg
-				e = ast.Unparen(u.X)
+		gov, other := false, ""
+		for _, cd := range l[0].conds() {
+			if cd.loop {
+				continue
 			}
-			be, ok := e.(*ast.BinaryExpr)
-			if !ok {
-				return false
+			if be, ok := cd.e.(*ast.BinaryExpr); ok && (isNilExpr(cd.env.info, be.X) || isNilExpr(cd.env.info, be.Y)) {
+				continue
 			}
-			op := be.Op
-			if neg {
-				op = negOp[op]
+			if cd.e.Pos() < loop.Body.Pos() && cd.env == top {
+				continue // a condition around the whole loop
 			}
-			return op == token.NEQ && strings.Contains(types.ExprString(be.X), "SlotToEpoch") && strings.Contains(types.ExprString(be.Y), "SlotToEpoch")
-		}
-		ast.Inspect(loop.Body, func(m ast.Node) bool {
-			if as, ok := m.(*ast.AssignStmt); ok && len(as.Lhs) == 1 && len(as.Rhs) == 1 {
-				if id, ok := as.Lhs[0].(*ast.Ident); ok && id.Name == cn && isEpochEnd(as.Rhs[0]) {
-					okCond = true
-				}
-			}
-			return true
-		})
-		if cn == "" {
-			lparents := parentMap(loop.Body)
-			for p := lparents[ast.Node(l[0].call)]; p != nil; p = lparents[p] {
-				if ifs, ok := p.(*ast.IfStmt); ok && isEpochEnd(ifs.Cond) && mentionsNode(ifs.Body, l[0].call) {
-					cn, okCond = "SlotToEpoch(slot+1) != SlotToEpoch(slot)", true
-				}
+			if isEpochEnd(cd) {
+				gov = true
+			} else if !cd.after {
+				other = types.ExprString(cd.e)
 			}
 		}
-		if cn == "" || !okCond {
+		switch {
+		case !gov:
 			c.bad(key, l[0].call.Pos(), "%s is not governed by the epoch-end flag (SlotToEpoch(slot+1) != SlotToEpoch(slot))", n)
-		} else {
-			c.ok(key, l[0].call.Pos(), "iff %s", cn)
+		case other != "":
+			c.bad(key, l[0].call.Pos(), "%s also depends on `%s`: it must run at every epoch end", n, other)
+		default:
+			c.ok(key, l[0].call.Pos(), "iff SlotToEpoch(slot+1) != SlotToEpoch(slot)")
 		}
 	}
-	// order
-	seq := []string{"ProcessSlot", "ProcessEpoch", "SetSlot", "RotateEpochs", "UpgradeMaybe"}
-	for i := 0; i+1 < len(seq); i++ {
-		a, b := byName[seq[i]], byName[seq[i+1]]
+	// order (the order in which a round reaches them, helpers read in place)
+	order := []string{"ProcessSlot", "ProcessEpoch", "SetSlot", "RotateEpochs", "UpgradeMaybe"}
+	for i := 0; i+1 < len(order); i++ {
+		a, b := bySite[order[i]], bySite[order[i+1]]
 		if len(a) != 1 || len(b) != 1 {
 			continue
 		}
-		key := "ProcessSlots." + seq[i] + "<" + seq[i+1]
-		if a[0].call.Pos() < b[0].call.Pos() && (a[0].blk == b[0].blk || !reachable(b[0].blk, nil)[a[0].blk]) {
+		key := "ProcessSlots." + order[i] + "<" + order[i+1]
+		if a[0].seq < b[0].seq {
 			c.ok(key, b[0].call.Pos(), "in order")
 		} else {
-			c.bad(key, b[0].call.Pos(), "%s must run before %s within a slot", seq[i], seq[i+1])
+			c.bad(key, b[0].call.Pos(), "%s must run before %s within a slot", order[i], order[i+1])
 		}
 	}
-	// the slot counter is advanced exactly by one before SetSlot
-	inc := false
-	ast.Inspect(loop.Body, func(m ast.Node) bool {
-		switch x := m.(type) {
-		case *ast.AssignStmt:
-			if x.Tok == token.ADD_ASSIGN && len(x.Rhs) == 1 {
-				if tv := info.Types[x.Rhs[0]]; tv.Value != nil && tv.Value.String() == "1" {
-					inc = true
+	// the slot counter (the variable of the loop test that the round assigns) moves up by exactly one per round
+	{
+		var counter types.Object
+		var steps []ast.Stmt
+		ast.Inspect(loop.Cond, func(k ast.Node) bool {
+			id, ok := k.(*ast.Ident)
+			if !ok {
+				return true
+			}
+			o := info.Uses[id]
+			if _, isVar := o.(*types.Var); !isVar {
+				return true
+			}
+			ast.Inspect(loop.Body, func(m ast.Node) bool {
+				switch x := m.(type) {
+				case *ast.FuncLit:
+					return false
+				case *ast.AssignStmt:
+					for _, l := range x.Lhs {
+						if lid, ok := ast.Unparen(l).(*ast.Ident); ok && info.ObjectOf(lid) == o {
+							counter = o
+							steps = append(steps, x)
+						}
+					}
+				case *ast.IncDecStmt:
+					if lid, ok := ast.Unparen(x.X).(*ast.Ident); ok && info.ObjectOf(lid) == o {
+						counter = o
+						steps = append(steps, x)
+					}
+				}
+				return true
+			})
+			return true
+		})
+		byOne := false
+		if counter != nil && len(steps) == 1 {
+			want := polyAdd(polyAtom(counter.Name()), polyConst(1), 1)
+			stop := map[string]bool{counter.Name(): true}
+			switch x := steps[0].(type) {
+			case *ast.IncDecStmt:
+				byOne = x.Tok == token.INC
+			case *ast.AssignStmt:
+				if len(x.Lhs) == 1 && len(x.Rhs) == 1 {
+					switch x.Tok {
+					case token.ADD_ASSIGN:
+						if p, ok := top.poly(x.Rhs[0]); ok {
+							k, isK := p.isConst()
+							byOne = isK && k == 1
+						}
+					case token.ASSIGN:
+						if p, ok := top.polyStop(x.Rhs[0], stop); ok && polyEq(p, want) {
+							byOne = true
+						} else if src := top.tupleSource(x.Rhs[0]); src != nil {
+							// the next slot handed back by a helper: its first result, on every success return
+							if f := calleeFunc(info, src); f != nil && f.Pkg() == pk.Types {
+								if hd := declOfFunc(pk, f); hd != nil && hd.Body != nil {
+									sub := map[types.Object]ast.Expr{}
+									i := 0
+									for _, fl := range hd.Type.Params.List {
+										for _, nm := range fl.Names {
+											if i < len(src.Args) {
+												sub[info.Defs[nm]] = src.Args[i]
+											}
+											i++
+										}
+									}
+									he := newInlEnv(info, hd.Body, top, src, sub, nil)
+									all, any := true, false
+									ast.Inspect(hd.Body, func(m ast.Node) bool {
+										if _, isLit := m.(*ast.FuncLit); isLit {
+											return false
+										}
+										r, ok := m.(*ast.ReturnStmt)
+										if !ok || len(r.Results) < 2 || !isNilExpr(info, r.Results[len(r.Results)-1]) {
+											return true
+										}
+										any = true
+										if p, ok := he.polyStop(r.Results[0], stop); !ok || !polyEq(p, want) {
+											all = false
+										}
+										return true
+									})
+									byOne = any && all
+								}
+							}
+						}
+					}
 				}
 			}
-		case *ast.IncDecStmt:
-			if x.Tok == token.INC {
-				inc = true
-			}
 		}
-		return true
-	})
-	if inc {
-		c.ok("ProcessSlots.step", loop.Pos(), "slot advances by one per iteration")
-	} else {
-		c.bad("ProcessSlots.step", loop.Pos(), "slot counter is not advanced by exactly one per iteration")
+		if byOne {
+			c.ok("ProcessSlots.step", loop.Pos(), "slot advances by one per iteration")
+		} else {
+			c.bad("ProcessSlots.step", loop.Pos(), "slot counter is not advanced by exactly one per iteration")
+		}
 	}
 
 	// PostSlotTransition
 	pk, fd = c.P.mustFunc("eth2/beacon/common", "PostSlotTransition")
 	info = pk.TypesInfo
-	g = cfg.New(fd.Body, func(*ast.CallExpr) bool { return true })
-	calls = cfgCalls(info, g, func(q string, f *types.Func) bool {
-		return f.Name() == "ProcessBlock" || strings.HasPrefix(f.Name(), "VerifySignature")
-	})
-	var pb, vs []callLoc
-	for q, l := range calls {
-		if strings.HasSuffix(q, ".ProcessBlock") {
-			pb = append(pb, l...)
-		} else {
-			vs = append(vs, l...)
+	g := cfg.New(fd.Body, func(*ast.CallExpr) bool { return true })
+	top = newInlEnv(info, fd.Body, nil, nil, nil, nil)
+	var pbS, vsS []inlSite
+	{
+		seq := 0
+		walkInlined(c.P, pk, top, 0, map[*ast.BlockStmt]bool{}, &seq, func(st inlSite) {
+			switch {
+			case st.f.Name() == "ProcessBlock":
+				pbS = append(pbS, st)
+			case strings.HasPrefix(st.f.Name(), "VerifySignature"):
+				vsS = append(vsS, st)
+			}
+		})
+	}
+	var pb []callLoc
+	for _, st := range pbS {
+		for _, bl := range g.Blocks {
+			for _, nd := range bl.Nodes {
+				if mentionsNode(nd, st.nodeIn(top)) {
+					pb = append(pb, callLoc{blk: bl, call: st.nodeIn(top).(*ast.CallExpr)})
+				}
+			}
 		}
 	}
 	succ := successReturns(info, g)
-	if len(pb) != 1 || !cuts(g, pb, succ) {
+	if len(pbS) != 1 || !cuts(g, pb, succ) {
 		c.bad("PostSlotTransition.ProcessBlock", fd.Pos(), "a success path skips ProcessBlock")
 	} else {
 		c.ok("PostSlotTransition.ProcessBlock", pb[0].call.Pos(), "on every success path")
 	}
-	if len(vs) != 1 {
+	if len(vsS) != 1 {
 		c.bad("PostSlotTransition.signature", fd.Pos(), "proposer signature verification not found")
 	} else {
-		// must be before ProcessBlock, negated result -> error, governed by validateResult
-		parents := parentMap(fd.Body)
-		neg := false
-		gov := false
-		for p := parents[ast.Node(vs[0].call)]; p != nil; p = parents[p] {
+		vs := vsS[0]
+		// negated result -> error in the frame the call is written in; governed by the validateResult flag (a boolean
+		// parameter of PostSlotTransition) somewhere along its chain of frames
+		neg, refuses := false, false
+		for p := vs.env.parents[ast.Node(vs.call)]; p != nil; p = vs.env.parents[p] {
 			if u, ok := p.(*ast.UnaryExpr); ok && u.Op == token.NOT {
-				neg = true
+				neg = !neg
 			}
-			if ifs, ok := p.(*ast.IfStmt); ok {
-				if id, ok := ast.Unparen(ifs.Cond).(*ast.Ident); ok && isBoolParam(fd, info, id) {
-					gov = true
+			if ifs, ok := p.(*ast.IfStmt); ok && mentionsNode(ifs.Cond, vs.call) {
+				if neg && endsInErrorReturn(vs.env.info, ifs.Body, nil, nil) {
+					refuses = true
 				}
-				if neg && !endsInErrorReturn(info, ifs.Body, nil, fd) && ast.Unparen(ifs.Cond) != nil && mentionsNode(ifs.Cond, vs[0].call) {
-					neg = false
+				if eb, ok := ifs.Else.(*ast.BlockStmt); ok && !neg && endsInErrorReturn(vs.env.info, eb, nil, nil) {
+					refuses = true
+				}
+				break
+			}
+		}
+		if !refuses {
+			// valid := sig.Verify(...); if !valid { return err }
+			if as, ok := vs.env.parents[ast.Node(vs.call)].(*ast.AssignStmt); ok && len(as.Lhs) == 1 {
+				if id, ok := as.Lhs[0].(*ast.Ident); ok {
+					vobj := vs.env.info.ObjectOf(id)
+					ast.Inspect(vs.env.body, func(k ast.Node) bool {
+						ifs, ok := k.(*ast.IfStmt)
+						if !ok {
+							return true
+						}
+						if u, ok := ast.Unparen(ifs.Cond).(*ast.UnaryExpr); ok && u.Op == token.NOT {
+							if cid, ok := ast.Unparen(u.X).(*ast.Ident); ok && vs.env.info.Uses[cid] == vobj && endsInErrorReturn(vs.env.info, ifs.Body, nil, nil) {
+								refuses = true
+							}
+						}
+						return true
+					})
 				}
 			}
 		}
+		gov := false
+		for _, cd := range vs.conds() {
+			x, fr := cd.env.resolve(cd.e)
+			if id, ok := x.(*ast.Ident); ok && !cd.neg && fr == top && isBoolParam(fd, info, id) {
+				gov = true
+			}
+		}
 		switch {
-		case len(pb) == 1 && vs[0].call.Pos() > pb[0].call.Pos():
-			c.bad("PostSlotTransition.signature", vs[0].call.Pos(), "the block is processed before its signature is verified")
-		case !neg:
-			c.bad("PostSlotTransition.signature", vs[0].call.Pos(), "a failed signature check does not return an error")
+		case len(pbS) == 1 && vs.seq > pbS[0].seq:
+			c.bad("PostSlotTransition.signature", vs.call.Pos(), "the block is processed before its signature is verified")
+		case !refuses:
+			c.bad("PostSlotTransition.signature", vs.call.Pos(), "a failed signature check does not return an error")
 		case !gov:
-			c.bad("PostSlotTransition.signature", vs[0].call.Pos(), "signature check is not governed by validateResult")
+			c.bad("PostSlotTransition.signature", vs.call.Pos(), "signature check is not governed by validateResult")
 		default:
-			c.ok("PostSlotTransition.signature", vs[0].call.Pos(), "verified before ProcessBlock when validateResult; failure returns an error")
+			c.ok("PostSlotTransition.signature", vs.call.Pos(), "verified before ProcessBlock when validateResult; failure returns an error")
 		}
 	}
 	// state root comparison after ProcessBlock: block.StateRoot != hash_tree_root(state) => error, when validateResult
@@ -899,17 +1067,22 @@ func ruleEngineVerdict(c *Ctx) {
 			c.unm(rkey, vn[0].call.Pos(), "NewPayloadRequest literal not found")
 			continue
 		}
-		defs := singleDefs(info, fd.Body)
-		resolve := func(e ast.Expr) string {
-			e = ast.Unparen(e)
-			if id, ok := e.(*ast.Ident); ok {
-				if d, ok := defs[info.Uses[id]]; ok && d.pos == 0 {
-					return types.ExprString(d.rhs)
-				}
-				// parameter
-				return id.Name
+		// the request's fields, each followed through locals, conversions, & and helper parameters to what it stands for
+		top := newInlEnv(info, fd.Body, nil, nil, nil, nil)
+		var vhSites []inlSite
+		seq := 0
+		walkInlined(c.P, pk, top, 0, map[*ast.BlockStmt]bool{}, &seq, func(st inlSite) {
+			if st.f.Name() == "ToVersionedHash" {
+				vhSites = append(vhSites, st)
 			}
-			return types.ExprString(e)
+		})
+		fieldOf := func(e ast.Expr, fr *inlEnv) string {
+			if sel, ok := ast.Unparen(e).(*ast.SelectorExpr); ok {
+				if sn := fr.info.Selections[sel]; sn != nil && sn.Kind() == types.FieldVal {
+					return sn.Obj().Name()
+				}
+			}
+			return ""
 		}
 		bad := ""
 		for _, el := range req.Elts {
@@ -918,51 +1091,101 @@ func ruleEngineVerdict(c *Ctx) {
 				continue
 			}
 			k := kv.Key.(*ast.Ident).Name
-			v := resolve(kv.Value)
+			x, fr := top.resolve(kv.Value)
 			switch k {
 			case "ExecutionPayload":
-				// the block's own payload: a parameter of type *ExecutionPayload or &body.ExecutionPayload
+				// the block's own payload: a parameter of this fork's ExecutionPayload type, or the body's field of that name
 				if nt := namedOf(info.TypeOf(kv.Value)); nt == nil || nt.Obj().Name() != "ExecutionPayload" || nt.Obj().Pkg() != pk.Types {
-					bad = "ExecutionPayload is " + v
-				} else if id, ok := ast.Unparen(kv.Value).(*ast.Ident); ok {
-					if paramIndex(fd, info, info.Uses[id]) < 0 && !strings.HasSuffix(v, ".ExecutionPayload") {
-						bad = "ExecutionPayload is " + v + ", not the block's payload"
+					bad = "ExecutionPayload is " + types.ExprString(kv.Value)
+				} else if id, ok := x.(*ast.Ident); ok {
+					if paramIndex(fd, info, fr.info.Uses[id]) < 0 {
+						bad = "ExecutionPayload is " + types.ExprString(kv.Value) + ", not the block's payload"
 					}
+				} else if fieldOf(x, fr) != "ExecutionPayload" {
+					bad = "ExecutionPayload is " + types.ExprString(kv.Value) + ", not the block's payload"
 				}
 			case "ParentBeaconBlockRoot":
-				if !strings.HasSuffix(types.ExprString(kv.Value), ".ParentRoot") {
+				if fieldOf(x, fr) != "ParentRoot" {
 					bad = "ParentBeaconBlockRoot is " + types.ExprString(kv.Value) + ", want latest_block_header.parent_root"
 				} else {
-					// base must come from state.LatestBlockHeader()
-					base := ast.Unparen(kv.Value).(*ast.SelectorExpr).X
-					if !strings.Contains(resolve(base), "LatestBlockHeader") {
+					src := fr.tupleSource(ast.Unparen(x).(*ast.SelectorExpr).X)
+					if sf := calleeFuncOrNil(fr.info, src); sf == nil || sf.Name() != "LatestBlockHeader" {
 						bad = "ParentBeaconBlockRoot is not read from state.LatestBlockHeader()"
 					}
 				}
 			case "VersionedHashes":
-				// built by a range over body.BlobKZGCommitments appending commit.ToVersionedHash()
+				// the slice that collects elem.ToVersionedHash() for the elements of the body's BlobKZGCommitments, in
+				// order: built here or in a helper that is handed the commitments
 				okVH := false
-				ast.Inspect(fd.Body, func(n ast.Node) bool {
-					rs, ok := n.(*ast.RangeStmt)
-					if !ok || !strings.HasSuffix(types.ExprString(rs.X), "BlobKZGCommitments") {
-						return true
+				for _, st := range vhSites {
+					sel, ok := ast.Unparen(st.call.Fun).(*ast.SelectorExpr)
+					if !ok {
+						continue
 					}
-					ast.Inspect(rs.Body, func(m ast.Node) bool {
-						if call, ok := m.(*ast.CallExpr); ok {
-							if sel, ok := call.Fun.(*ast.SelectorExpr); ok && sel.Sel.Name == "ToVersionedHash" {
-								if id, ok := ast.Unparen(sel.X).(*ast.Ident); ok && rs.Value != nil && id.Name == types.ExprString(rs.Value) {
-									okVH = true
-								}
-								// or the element addressed through the range key: X[i]
-								if ix, ok := ast.Unparen(sel.X).(*ast.IndexExpr); ok && rs.Key != nil && types.ExprString(ix.X) == types.ExprString(rs.X) && types.ExprString(ix.Index) == types.ExprString(rs.Key) {
-									okVH = true
+					// the receiver is the element of a range statement around the call
+					var rs *ast.RangeStmt
+					for q := st.env.parents[st.call]; q != nil && rs == nil; q = st.env.parents[q] {
+						if r, ok := q.(*ast.RangeStmt); ok {
+							rs = r
+						}
+					}
+					if rs == nil {
+						continue
+					}
+					elem := false
+					switch rx := ast.Unparen(sel.X).(type) {
+					case *ast.Ident:
+						if vid, ok := rs.Value.(*ast.Ident); ok && st.env.info.Uses[rx] == st.env.info.Defs[vid] {
+							elem = true
+						}
+					case *ast.IndexExpr:
+						kid, ok1 := rs.Key.(*ast.Ident)
+						iid, ok2 := ast.Unparen(rx.Index).(*ast.Ident)
+						if ok1 && ok2 && st.env.info.Uses[iid] == st.env.info.Defs[kid] && types.ExprString(rx.X) == types.ExprString(rs.X) {
+							elem = true
+						}
+					}
+					if !elem {
+						continue
+					}
+					rx, rfr := st.env.resolve(rs.X)
+					if fieldOf(rx, rfr) != "BlobKZGCommitments" {
+						continue
+					}
+					// collected by append into the value the request is given
+					ap, ok := st.env.parents[st.call].(*ast.CallExpr)
+					if !ok {
+						continue
+					}
+					if id, ok := ap.Fun.(*ast.Ident); !ok || id.Name != "append" {
+						continue
+					}
+					as, ok := st.env.parents[ap].(*ast.AssignStmt)
+					if !ok || len(as.Lhs) != 1 {
+						continue
+					}
+					dst := st.env.info.ObjectOf(identOrNil(as.Lhs[0]))
+					if dst == nil {
+						continue
+					}
+					if st.env == top {
+						if id, ok := ast.Unparen(kv.Value).(*ast.Ident); ok && info.Uses[id] == dst {
+							okVH = true
+						}
+					} else if call, ok := x.(*ast.CallExpr); ok && st.nodeIn(top) == ast.Node(call) {
+						// the helper returns the slice it appended to
+						returnsDst := false
+						ast.Inspect(st.env.body, func(m ast.Node) bool {
+							if r, ok := m.(*ast.ReturnStmt); ok && len(r.Results) >= 1 {
+								if id, ok := ast.Unparen(r.Results[0]).(*ast.Ident); ok && st.env.info.Uses[id] == dst {
+									returnsDst = true
 								}
 							}
-						}
-						return true
-					})
-					return true
-				})
+							return true
+						})
+						okVH = returnsDst
+					}
+				}
 				if !okVH {
 					bad = "VersionedHashes are not the versioned hashes of body.BlobKZGCommitments in order"
 				}
@@ -974,6 +1197,21 @@ func ruleEngineVerdict(c *Ctx) {
 			c.ok(rkey, req.Pos(), "request built from the block's payload%s", map[bool]string{true: ", commitments and latest header parent root", false: ""}[fork == "deneb"])
 		}
 	}
+}
+
+func calleeFuncOrNil(info *types.Info, call *ast.CallExpr) *types.Func {
+	if call == nil {
+		return nil
+	}
+	return calleeFunc(info, call)
+}
+
+func identOrNil(e ast.Expr) *ast.Ident {
+	id, _ := ast.Unparen(e).(*ast.Ident)
+	if id == nil {
+		return &ast.Ident{Name: "_"}
+	}
+	return id
 }
 
 func returnsFalseErr(info *types.Info, b *ast.BlockStmt, errObj types.Object) bool {
